@@ -68,7 +68,9 @@ Inductive dgram :=
 | DHs (h : N) (j : N).
     (* right-sized handshake-type message: 0 bad MAC1, 1 acceptable initiation from peer j, 2 initiation that is
        refused after MAC1 (unknown static, old timestamp, flood), 3 acceptable response to peer j's pending
-       initiation, 4 response that is refused, 5 cookie reply, 6 MAC1-valid message answered by a cookie reply (under load) *)
+       initiation, 4 response that is refused, 5 cookie reply, 6 MAC1-valid message answered by a cookie reply (under load),
+       7 message with valid MAC1 and valid MAC2 while under load: handed to the per-address rate limiter, which either
+         refuses it (`goto skip`) or admits it (then refused like kind 2: the harness sends it with an unknown static key) *)
 
 Inductive ev :=
 | EAddPeer (j : N) (pka : bool)
